@@ -34,6 +34,14 @@ Definition check_room (struct : N) (type : bytes) (state_key : option bytes) (ro
          end
   else check_id room 33.
 
+(* the room-ID check, then CheckFields *)
+Definition event_checks (struct : N) (v : bytes) (refs_nil : bool) (json_len : N) (type : bytes)
+    (state_key : option bytes) (sender room : bytes) : verdict :=
+  match check_room struct type state_key room with
+  | VOk => check_fields v refs_nil json_len type state_key sender
+  | e => e
+  end.
+
 (* string-typed member: absent or null -> empty string; another type -> unmarshal error *)
 Definition str_member (k : bytes) (j : json) : option bytes :=
   match jget k j with
@@ -75,10 +83,7 @@ Definition receive (t : vtable) (v : bytes) (text : bytes) : verdict :=
         match str_member (bs "type") j, opt_str_member (bs "state_key") j,
               str_member (bs "sender") j, str_member (bs "room_id") j with
         | Some type, Some sk, Some sender, Some room =>
-            match check_room struct type sk room with
-            | VOk => check_fields v (refs_nil struct j) (len text) type sk sender
-            | e => e
-            end
+            event_checks struct v (refs_nil struct j) (len text) type sk sender room
         | _, _, _, _ => VErr
         end
     | _ => VErr
@@ -96,8 +101,5 @@ Definition build (t : vtable) (v : bytes) (type : bytes) (state_key : option byt
        && match state_key with Some _ => true | None => false end && negb (is_nil room)
     then VErr
     else
-      match check_room (trusted_struct t v) type state_key room with
-      | VOk => check_fields v false json_len type state_key sender
-      | e => e
-      end
+      event_checks (trusted_struct t v) v false json_len type state_key sender room
   end.
